@@ -19,6 +19,7 @@ def dispatch (focus : String) (c : Case) : String :=
   | "fit" => handleFit focus c
   | "fault" => handleFault focus c
   | "robust" => handleRobust focus c
+  | "robustspec" => handleRobustSpec c
   | "conv" => handleConv focus c
   | "mc" => handleMc focus c
   | "stats" => handleStats focus c
